@@ -89,6 +89,32 @@ struct BuckTraits : TraitsBase<K_, E> {
     static Index *build(const std::vector<K> &d) { return new Index(d.begin(), d.end()); }
     static Approx search(const Index &i, K q) { auto r = i.search(q); return Approx{r.pos, r.lo, r.hi}; }
     static size_t segments(const Index &i) { return i.segments_count(); }
+    /// Non-power-of-two tables divide by step = ceil(span / TopLevelSize): some runs rescale the keys so that the step is a
+    /// number with very few set bits anywhere in the word (2^a, 2^a + 2^b, 2^a + 2^b + 1, 2^a - 1), where shifts, masks
+    /// and narrow builtins on the step go wrong.
+    static void post_keys(PlanText &p, Rng &r) {
+        if constexpr (sizeof(K) == 8 && std::is_integral_v<K> && (TLS & (TLS - 1)) != 0) {
+            if (p.keys.size() < 2 || !r.chance(250)) return;
+            gen::KeyMap<K> km;
+            using UK = std::make_unsigned_t<K>;
+            auto pos_of = [](long double x) { return uint64_t(UK(UK((K) x) - UK(std::numeric_limits<K>::lowest()))); };
+            uint64_t p0 = pos_of(p.keys.front()), span = pos_of(p.keys.back()) - p0;
+            if (span == 0) return;
+            unsigned top = 62; { size_t t = TLS; while (t > 1) { t >>= 1; --top; } } // TLS * step stays below 2^63
+            unsigned a = (unsigned) r.range(1, top - 1);
+            uint64_t step = uint64_t(1) << a;
+            switch (r.below(4)) { case 0: break; case 1: step |= uint64_t(1) << r.below(a); break; case 2: step |= (uint64_t(1) << r.below(a)) | 1; break; default: step -= 1; }
+            if (step < 2) step = 2;
+            unsigned __int128 want = (unsigned __int128) step * TLS - r.below(TLS); // ceil(want / TLS) == step
+            if (want > km.U) return;
+            uint64_t nspan = (uint64_t) want, base = r.range(0, std::min<uint64_t>(km.U - nspan, 1000000));
+            for (auto &x : p.keys) {
+                uint64_t u = pos_of(x) - p0;
+                x = (long double) km.at(base + (uint64_t) ((unsigned __int128) u * nspan / span));
+            }
+            p.set("motifs", p.get("motifs") + "+sparsestep");
+        }
+    }
     // a fixed cell width too small for the segment count is outside the property's domain ("fixed widths large enough")
     static bool out_of_domain(const std::exception &e) { return BITS != 0 && std::string(e.what()).find("TopLevelBitSize must be") != std::string::npos; }
     struct Aux : AuxBase<K_> {
